@@ -145,7 +145,7 @@ def run_batch(cgs, tier, seed, keep_dir=None, variants_fn=None, owner=None, debu
                 m = eng_core.modname(cg["id"], algo, backend)
                 r = res[m]
                 if r["status"] == "ok":
-                    modules.append((m, r["rs"], [(st, core.nt_name(cg, st), "0, " if cg.get("grammar_param") else "")
+                    modules.append((m, r["rs"], [(st, core.nt_name(cg, st), core.parse_args(cg))
                                                  for st in cg["starts"]]))
                 elif r["status"] in ("panic", "timeout", "abort"):
                     dis.append({"prop": "C18", "kind": r["status"], "m": m})
@@ -597,7 +597,7 @@ def replay(obj):
     try:
         variants = [(obj["algo"], "table"), (obj["algo"], "ascent")] if obj["backend"] == "both" else [(obj["algo"], obj["backend"])]
         res = eng_core.generate([cg], lambda _: variants, wd)
-        mods = [(m, r["rs"], [(st, core.nt_name(cg, st), "0, " if cg.get("grammar_param") else "") for st in cg["starts"]])
+        mods = [(m, r["rs"], [(st, core.nt_name(cg, st), core.parse_args(cg)) for st in cg["starts"]])
                 for m, r in res.items() if r["status"] == "ok"]
         binp, bad = eng_core.build_runner_isolating(mods, os.path.join(wd, "gen"), "runner-replay")
         reqs = []
